@@ -87,6 +87,12 @@ CHECKS = {
     design="5/C07",
     note="Trusted: Lean kernel; cursor model = implementation sampled; RankIds.interp and minifiber as readings of the fibertree API; data-level facts rest on execution over sampled inputs.",
     technique="Lean 4 proofs over the tensor-cursor state machine (partial) + Lean rank-id interpretation of the real emitted trees + execution snapshots of the inputs"),
+ "C05": dict(
+    category="proof",
+    text="PARTIAL. Lean theorems (Props/C05) on the state shared between the translations of two Einsums: cursors_restored (for every set of declared tensors and every history of cursor operations a translation performs on them, Program.reset leaves exactly the freshly declared tensors, so Einsum i+1 starts from the stand-alone state), tmp_offset/tmp_monotone (the temporaries issued for a later Einsum are the stand-alone ones shifted by the number issued before). On the real compiler (G5 cascades): the text of the first i Einsums is a prefix of the whole text; the segment of Einsum i equals the text of Einsum i compiled alone with the same declarations and mapping after renaming temporaries by first occurrence, with exactly the predicted shift; after each Einsum every tensor cursor of the real Program equals a freshly declared tensor; the whole program executed on sampled inputs equals the chained dense evaluation with every intermediate bound under its declared/rank-order name.",
+    design="5/C05",
+    note="Trusted: Lean kernel; equality of the emitted statements and composition of results are observed on sampled cascades and inputs, not derived from a model of the emitters.",
+    technique="Lean 4 proofs over the shared-state model (partial) + prefix/segment/stand-alone text differential and chained-oracle execution on the real compiler"),
 }
 
 NOT_YET = {}
